@@ -211,6 +211,13 @@ class ShareMachine(ohist.Machine):
                         out.append(("remove", s))
                     out.append(("edit", s))
                     out.append(("poke", s))
+        if self.t in (R.T_DATA3D, R.T_FORCE3D):
+            # dst.tracks = src.tracks : the list the getter hands out is assigned to another block; the
+            # blocks then hold the same track objects (ordinary aliasing of items) but must not share the list
+            for d in range(self.nslots):
+                for s2 in range(self.nslots):
+                    if d != s2 and model[d] is not None and model[s2] is not None:
+                        out.append(("assign_from", d, s2))
         return out
 
     def _id(self, it):
@@ -221,12 +228,14 @@ class ShareMachine(ohist.Machine):
         return int(it[0]) if isinstance(it, tuple) else 0
 
     def describe(self, op):
+        if op[0] == "assign_from":
+            return f"slot{op[1]}.tracks = slot{op[2]}.tracks"
         return f"{op[0]}[{op[1]}]" + (f"(item {op[2]})" if len(op) > 2 else "")
 
     def step(self, impl, model, op):
         import copy as _copy
 
-        impl, model = list(impl), [_copy.deepcopy(m) for m in model]
+        impl, model = list(impl), _copy.deepcopy(list(model))
         kind, s = op[0], op[1]
         a, t = self.a, self.t
         try:
@@ -245,6 +254,11 @@ class ShareMachine(ohist.Machine):
                 sp = self._decode_spec()
                 impl[s] = specs.lib_decode(t, sp["format"], R.encode_block(sp))[0]
                 model[s] = sp
+            elif kind == "assign_from":
+                src = op[2]
+                impl[s].tracks = impl[src].tracks
+                k = self._key(model[s])
+                model[s][k] = list(model[src][k])      # same item specs (shared, like the objects), own list
             elif kind == "add":
                 a.add(impl[s], op[2])
                 k = self._key(model[s])
@@ -370,7 +384,71 @@ def _events_defaults(acc):
         acc.outcomes["event-values:independent"] += 1
 
 
+def _reads_shard(_):
+    """Reading the same block twice from a file (index, kind, convenience getter; read-only and write
+    context; implicit contexts) yields two objects that can be edited independently."""
+    import os
+
+    from .. import env, kdriver
+
+    acc = core.Acc()
+    n = specs.lib()
+    tmp = env.scratch_dir("c20")
+    path = os.path.join(tmp, "r.tdf")
+    kinds = (R.T_EVENTS, R.T_DATA3D, R.T_EMG, R.T_FORCE3D, R.T_PLATDATA, R.T_PLATCAL, R.T_OPT)
+    recs = [kdriver.known_record(t, 1 if t in (R.T_DATA3D, R.T_EMG, R.T_FORCE3D, R.T_PLATDATA) else 0) for t in kinds]
+    with open(path, "wb") as f:
+        f.write(R.build_file(14, recs))
+    BT = n.block.BlockType
+    for mode in ("read-context", "write-context", "no-context"):
+        for i, t in enumerate(kinds):
+            readers = [("get_block(i)", lambda f, i=i: f.get_block(i)), ("get_block(kind)", lambda f, t=t: f.get_block(BT(t))),
+                       ("tdf[i]", lambda f, i=i: f[i])]
+            if t in kdriver.GETTERS:
+                readers.append((f"tdf.{kdriver.GETTERS[t]}", lambda f, t=t: getattr(f, kdriver.GETTERS[t])))
+            for (na, ra), (nb, rb) in [(x, y) for x in readers for y in readers]:
+                acc.n["states"] += 1
+                acc.n["evaluations"] += 1
+                acc.n["nontrivial"] += 1
+                acc.n["transitions"] += 3
+                tdf = n.tdf.Tdf(path)
+                if mode == "write-context":
+                    tdf.allow_write()
+                wit = {"reads": [mode, R.NAMES[t], na, nb]}
+                try:
+                    if mode == "no-context":
+                        a, b = ra(tdf), rb(tdf)
+                        want = specs.lib_encode(rb(tdf))
+                        changed = editwalk.scribble(a)
+                        got = specs.lib_encode(b)
+                        again = specs.lib_encode(rb(tdf))
+                    else:
+                        with tdf as f:
+                            a, b = ra(f), rb(f)
+                            want = specs.lib_encode(rb(f))
+                            changed = editwalk.scribble(a)
+                            got = specs.lib_encode(b)
+                            again = specs.lib_encode(rb(f))
+                except Exception as e:  # noqa: BLE001
+                    acc.violation("slot-unusable", f"{PROP}:reads:{type(e).__name__}", wit, f"{mode} {R.NAMES[t]} {na}/{nb}: {type(e).__name__}: {e}")
+                    continue
+                if a is b or (changed and got != want):
+                    acc.violation("instance-changed-by-other", f"{PROP}:reads:{R.NAMES[t]}:two-reads-share-state:{mode}", wit,
+                                  f"{mode}: {na} and {nb} of the {R.NAMES[t]} block returned {'the same object' if a is b else 'objects sharing state'}: "
+                                  f"editing the first changed the second")
+                elif changed and again != want:
+                    acc.violation("decode-affected-by-earlier-instance", f"{PROP}:reads:{R.NAMES[t]}:later-read-sees-edit:{mode}", wit,
+                                  f"{mode}: after editing the object returned by {na}, a new {nb} returns the edit")
+                else:
+                    acc.outcomes[f"reads:{mode}:independent"] += 1
+                    acc.n["traces"] += 1
+    acc.sample({"reads": "every pair of read paths x 7 kinds x {read ctx, write ctx, no ctx}: edit the first object, compare the second"}, 1)
+    return acc
+
+
 def _shard(shard):
+    if shard == "reads":
+        return _reads_shard(shard)
     t, nslots = shard
     acc = core.Acc()
     depth = {"quick": 4, "thorough": 5}[_shard.tier]
@@ -385,11 +463,17 @@ def _shard(shard):
 def run(tier):
     _shard.tier = tier
     ns = 2 if tier == "quick" else 3
-    shards = [(t, 2) for t in TYPES] + ([(t, 3) for t in TYPES] if ns == 3 else [])
+    shards = ["reads"] + [(t, 2) for t in TYPES] + ([(t, 3) for t in TYPES] if ns == 3 else [])
     return core.pmap(__name__, "_shard", shards)
 
 
 def replay(w):
+    if w.get("reads"):
+        acc = _reads_shard(None)
+        for v in acc.violations:
+            if v["witness"] == w:
+                return core.Violation(v["clause"], v["sig"], w, v["detail"])
+        return None
     if w.get("events_defaults"):
         acc = core.Acc()
         _events_defaults(acc)
